@@ -195,9 +195,20 @@ package app
 // ---------- C06: stopping ----------
 // the shutdown cause handed to the log-ready context does not wrap context.Canceled (no %w verb in the format)
 //@ axiom fmt_shutdown_cause: !hasVerbW("process %s was shut down") && !hasVerbW("process %s ended")
+// C17: the environment handed to a command is, in this order: the two injected variables, the inherited
+// environment, the global one (with env_cmds results), the per-process one. os/exec uses the last value of a
+// duplicated key, which gives per-process over global over inherited.
 //@ func (p *Process) getProcessEnvironment
+//@   let g = p.globalEnv
+//@   let e = p.procConf.Environment
 //@   sets lastProcEnv() := result
-//@   assigns nothing
+//@   ensures length: len(result) == 2 + len(lastEnviron()) + len(g) + len(e)
+//@   ensures injected: result[0] == "PC_PROC_NAME=" + p.procConf.Name && result[1] == "PC_REPLICA_NUM=" + itoa(p.procConf.ReplicaNum)
+//@   ensures inherited: forall i int :: 0 <= i && i < len(lastEnviron()) ==> result[2 + i] == lastEnviron()[i]
+//@   ensures global: forall i int :: 0 <= i && i < len(g) ==> result[2 + len(lastEnviron()) + i] == g[i]
+//@   ensures per-process: forall i int :: 0 <= i && i < len(e) ==> result[2 + len(lastEnviron()) + len(g) + i] == e[i]
+//@   ensures injected-win: forall i int :: 2 <= i && i < len(result) ==> envKey(result[i]) != "PC_PROC_NAME" && envKey(result[i]) != "PC_REPLICA_NUM"
+//@   assigns lastEnviron()
 
 //@ func (p *Process) forceKillOnTimeout
 //@   requires !held(p.mtxStopFn)
